@@ -81,23 +81,13 @@ func runLoc18(t *tree18, fault int) *locRun {
 	inner := buildFS18(t)
 	ffs := newFaultFS(inner, fault)
 	r := &locRun{Fault: fault, inner: inner}
-	func() {
-		defer func() {
-			if rec := recover(); rec != nil {
-				if fsn, ok := rec.(fatalSentinel); ok {
-					r.Cls, r.Msg = kFatal, fsn.msg
-					return
-				}
-				r.Cls, r.Msg = kPanic, fmt.Sprint(rec)
-			}
-		}()
+	r.Cls, r.Msg = runTrapped(func() error {
 		dst, err := localizer.Run(ffs, t.Target, t.Scope, t.NewDir)
-		if err != nil {
-			r.Cls, r.Msg = kErr, err.Error()
-			return
+		if err == nil {
+			r.Dst = dst
 		}
-		r.Cls, r.Dst = kOk, dst
-	}()
+		return err
+	})
 	r.Faulted = ffs.faulted
 	r.Trace = ffs.trace
 	r.NFallible = ffs.nFallible
